@@ -682,7 +682,145 @@ def build_T6n(tree):
     return t1 + '\n\n' + t2, span_sha(strip_doc(fn.body) + keep)
 
 
+def build_T6p(tree):
+    """`_CombinedPixelTransform.__init__`, the block behind the stage folding: what happens to the three effective
+    representations depending on input / output type - eager cast of a table, refusal of tables on float pixels, an identity
+    rescale dropped, `_check_rescale_dtype` called, a window refused for a non-float output, whether the final cast is
+    range-checked (`_check_output_range`), whether frames come out as colour (`color_output`)."""
+    fn = _init(tree)
+    body = strip_doc(fn.body)
+    start = end = None
+    for i, st in enumerate(body):
+        u = ast.unparse(st)
+        if start is None and isinstance(st, ast.If) and ast.unparse(st.test) == 'self._effective_lut_data is not None' \
+                and '_color_manager' in u and 'casting' in u:
+            start = i
+        if isinstance(st, ast.Assign) and ast.unparse(st.targets[0]) == 'self.color_output':
+            end = i
+    if start is None or end is None or end < start:
+        raise Unsupported('output-type block of _CombinedPixelTransform.__init__ not found')
+    block = body[start:end + 1]
+    cm = [i for i, st in enumerate(body) if isinstance(st, ast.If) and ast.unparse(st.test).startswith('require_icc and self._color_manager is None')]
+    if len(cm) != 1 or cm[0] > start:
+        raise Unsupported('the output-type block no longer follows the colour-manager search')
+    subst = {
+        'self._effective_lut_data is not None': 'has_lut', 'self._effective_lut_data is None': 'not has_lut',
+        'self._color_manager is None': 'not has_cm', 'self._effective_lut_data.dtype != output_dtype': 'lut_dtype_differs',
+        "self.input_dtype.kind == 'f'": 'in_float',
+        'self._effective_slope_intercept is not None': 'has_si', 'self._effective_slope_intercept is None': 'not has_si',
+        'self._effective_slope_intercept == (1.0, 0.0)': 'si_identity',
+        'self._effective_window_center_width is not None': 'has_window', 'self._effective_window_center_width is None': 'not has_window',
+        "self.output_dtype.kind != 'f'": "out_kind != 'f'", "self.output_dtype.kind in ('u', 'i')": "out_kind in ('u', 'i')",
+        "self.input_dtype.kind in ('u', 'i')": "in_kind in ('u', 'i')",
+        "np.can_cast(self.input_dtype, self.output_dtype, 'safe')": 'can_cast_safe',
+        'self._color_type == _ImageColorType.COLOR': "color_type == 'COLOR'",
+        'self._color_type == _ImageColorType.PALETTE_COLOR': "color_type == 'PALETTE_COLOR'",
+    }
+
+    class R(ast.NodeTransformer):
+        def visit(self, node):
+            if isinstance(node, ast.expr):
+                u = ast.unparse(node)
+                if u in subst:
+                    return ast.parse(subst[u], mode='eval').body
+                return self.generic_visit(node)
+            return super().visit(node)
+
+        def visit_Assign(self, node):
+            u = ast.unparse(node)
+            t = ast.unparse(node.targets[0])
+            if u == 'self._effective_slope_intercept = None':
+                return ast.parse('has_si = False').body[0]
+            if t == 'self._effective_lut_data':
+                if 'astype(output_dtype, casting=\'safe\')' not in ''.join(u.split()).replace('casting=', 'casting=') and \
+                        "casting='safe'" not in u:
+                    raise Unsupported('the eager cast of the effective table is no longer a safe cast')
+                return ast.parse('lut_cast = True').body[0]
+            if t == 'self._effective_slope_intercept':
+                if ast.unparse(node.value) != '(np.float64(slope).astype(self.output_dtype), np.float64(intercept).astype(self.output_dtype))':
+                    raise Unsupported('slope / intercept are no longer cast to the output type')
+                return ast.parse('si_cast = True').body[0]
+            if t in ('slope, intercept', '(slope, intercept)'):
+                return None
+            if t == 'self._check_output_range':
+                return ast.Assign(targets=[ast.Name(id='check_output_range', ctx=ast.Store())], value=self.visit(node.value))
+            if t == 'self.color_output':
+                return ast.Assign(targets=[ast.Name(id='color_output', ctx=ast.Store())], value=self.visit(node.value))
+            raise Unsupported('output-type block: unexpected assignment ' + u[:80])
+
+        def visit_Expr(self, node):
+            u = ast.unparse(node)
+            if u.startswith('_check_rescale_dtype('):
+                want = '_check_rescale_dtype(slope=slope, intercept=intercept, output_dtype=self.output_dtype, input_dtype=self.input_dtype, input_range=input_range)'
+                if u != want:
+                    raise Unsupported('arguments of _check_rescale_dtype changed: ' + u)
+                return ast.parse('rescale_checked = True').body[0]
+            raise Unsupported('output-type block: unexpected statement ' + u[:80])
+    pre = ast.parse('lut_cast = False\nsi_cast = False\nrescale_checked = False').body
+    stmts = pre + [R().visit(copy.deepcopy(st)) for st in block]
+    stmts = [x for x in stmts if x is not None] + [_ret('(lut_cast, has_si, rescale_checked, si_cast, check_output_range, color_output)')]
+    for x in stmts:
+        ast.fix_missing_locations(x)
+    text = translate_block(stmts, 'outputRules',
+                           [('has_lut', 'bool'), ('has_cm', 'bool'), ('lut_dtype_differs', 'bool'), ('in_float', 'bool'),
+                            ('has_si', 'bool'), ('si_identity', 'bool'), ('has_window', 'bool'), ('out_kind', 'str'), ('in_kind', 'str'),
+                            ('can_cast_safe', 'bool'), ('color_type', 'str')], {},
+                           doc='`_CombinedPixelTransform.__init__`, block behind the folding: (table cast eagerly to the output type, slope / '
+                               'intercept still present, `_check_rescale_dtype` called, slope / intercept cast, `_check_output_range`, '
+                               '`color_output`) or the refusal; inputs: which effective representation exists, whether a colour manager '
+                               'exists, dtype kinds, `np.can_cast(input, output, "safe")`')
+    return text, span_sha(block)
+
+
+def build_T6q(tree):
+    """`_CombinedPixelTransform.__call__`: the ORDER of its steps, as a list of tags (every top-level statement must be one of
+    the known steps)."""
+    fn = find_func(tree, '_CombinedPixelTransform.__call__')
+    body = strip_doc(fn.body)
+    tags = []
+    for st in body:
+        u = ast.unparse(st)
+        if isinstance(st, ast.If):
+            t = ast.unparse(st.test)
+            if t == 'isinstance(frame, bytes)':
+                if 'decode_frame(' not in u or 'raise TypeError' not in u:
+                    raise Unsupported('__call__: decode step changed')
+                tags.append('decode')
+            elif t == 'self._color_type == _ImageColorType.COLOR':
+                tags.append('shape-check')
+            elif t == 'self._input_range_check is not None':
+                tags.append('input-range-check')
+            elif t == 'self._effective_lut_data is not None':
+                tags.append('lut|affine|window')
+            elif t == 'self._color_manager is not None':
+                if [ast.unparse(x) for x in st.body] != ['frame_out = self._color_manager.transform_frame(frame_out)'] or st.orelse:
+                    raise Unsupported('__call__: colour-management step changed')
+                tags.append('icc')
+            elif t == 'self._check_output_range':
+                if 'raise ValueError' not in u or 'np.iinfo(self.output_dtype)' not in u:
+                    raise Unsupported('__call__: output range check changed')
+                tags.append('output-range-check')
+            elif t == 'frame_out.dtype != self.output_dtype':
+                if [ast.unparse(x) for x in st.body] != ['frame_out = frame_out.astype(self.output_dtype)'] or st.orelse:
+                    raise Unsupported('__call__: final cast changed')
+                tags.append('cast')
+            else:
+                raise Unsupported('__call__: unknown step `if ' + t[:80] + '`')
+        elif isinstance(st, ast.Return):
+            if u != 'return frame_out':
+                raise Unsupported('__call__ no longer returns frame_out')
+            tags.append('return')
+        else:
+            raise Unsupported('__call__: unknown step ' + u[:80])
+    text = ('/-- `_CombinedPixelTransform.__call__`: its steps in source order -/\ndef callOrder : List String :=\n  ['
+            + ', '.join(_lean_str(t) for t in tags) + ']')
+    import hashlib
+    return text, hashlib.sha256(repr(tags).encode()).hexdigest()
+
+
 TARGETS = {
+    'T6p': {'file': 'image.py', 'build': build_T6p},
+    'T6q': {'file': 'image.py', 'build': build_T6q},
     'T6n': {'file': 'content.py', 'build': build_T6n},
     'T6k': {'file': 'image.py', 'build': build_T6k},
     'T6m': {'file': 'image.py', 'build': build_T6m},
